@@ -64,6 +64,17 @@ class P(orders.PyStub):
         return '(%g, %g, %g)' % self.xyz()
 
 
+class PG(P):
+    """a geographic position: the repository's GeoCoords (and ECEFCoords) define no equality, two distinct objects are never equal"""
+    isa = ('GeoCoords',)
+
+    def copy(self):
+        return PG(self.x, self.y, self.z)
+
+    __eq__ = object.__eq__
+    __hash__ = object.__hash__
+
+
 class O(orders.PyStub):
     isa = ('Obs',)
 
@@ -185,12 +196,13 @@ class Harness:
         self.PD = install_queue(ctx, fn)
 
     # ---- graphs ---------------------------------------------------------------------------------------------------
-    def build(self, nodes, edges, layout=None):
+    def build(self, nodes, edges, layout=None, geographic=False):
         """nodes: list of ids; edges: list of (id, stored source, stored target, orientation, weight).  Node k sits at (10k, k*k, 0)
         unless `layout` places it; the polyline of an edge runs from its stored source through one vertex of its own
         (100 + 7j, 50 + j, 0) to its stored target; with layout 'repeat' the first vertex of every polyline is doubled."""
         net = self.Network()
         place = layout if isinstance(layout, dict) else {}
+        P = PG if geographic else globals()['P']
         pos = {nid: P(*place[nid]) if nid in place else P(10.0 * k, float(k * k)) for k, nid in enumerate(nodes)}
         nd = {nid: self.Node(nid, pos[nid]) for nid in nodes}
         for nid in nodes:
